@@ -48,6 +48,13 @@ func NewRecorder(prop, kind string) *Recorder {
 	}
 }
 
+// SetKind changes the replay kind recorded for subsequent failures.
+func (r *Recorder) SetKind(kind string) {
+	r.mu.Lock()
+	r.kind = kind
+	r.mu.Unlock()
+}
+
 // Case records one executed case.
 func (r *Recorder) Case(progJSON []byte, hash uint64, counters map[string]int, nontrivial bool, v *Violation) {
 	r.mu.Lock()
